@@ -92,6 +92,8 @@ def _build(e, T=None):
         return build(e[1], T) + build(e[2], T)
     if k == "mul":
         return e[1] * build(e[2], T)
+    if k == "intab":              # this part of the expression is built from another table's atoms
+        return build(e[2], e[1])
     if k == "deepcopy":
         import copy
         return copy.deepcopy(build(e[1], T))
@@ -247,7 +249,7 @@ def flat(f):
         if not core.isatom(frag):
             return None
         z, a, q = key(frag)
-        out.append({"c": dec.to_dec(count), "z": z, "a": a, "q": q, "sym": _symcodes(frag)})
+        out.append({"c": dec.to_dec(count), "z": z, "a": a, "q": q, "sym": _symcodes(frag), "t": _owner_name(frag)})
     return out
 
 
@@ -255,8 +257,8 @@ def bag(f):
     out = []
     for at, c in f.atoms.items():
         z, a, q = key(at)
-        out.append({"c": dec.to_dec(c), "z": z, "a": a, "q": q})
-    return sorted(out, key=lambda x: (x["z"], x["a"], x["q"]))
+        out.append({"c": dec.to_dec(c), "z": z, "a": a, "q": q, "t": _owner_name(at)})
+    return sorted(out, key=lambda x: (x["z"], x["a"], x["q"], x["t"]))
 
 
 def observe_hill(arg):
@@ -280,9 +282,13 @@ def observe_hill(arg):
             ev["idem"] = [bool(h.hill == h) for h in hs]
             s = str(hs[0])
             ev["hillstr"] = s
-            g = P.formula(s, table=_tab(it.get("T")) if it.get("T") else None)
-            ev["parsed_eq_hill"] = bool(g == g.hill)
-            ev["parsed_is_same"] = bool(g == hs[0])
+            if it.get("noparse"):
+                # the neutron cannot be written in the grammar, atoms of two tables cannot be written in one string
+                ev["parsed_eq_hill"] = ev["parsed_is_same"] = True
+            else:
+                g = P.formula(s, table=_tab(it.get("T")) if it.get("T") else None)
+                ev["parsed_eq_hill"] = bool(g == g.hill)
+                ev["parsed_is_same"] = bool(g == hs[0])
         except Exception as e:
             ev["exc"] = "%s: %s" % (type(e).__name__, str(e)[:100])
         out.append(ev)
